@@ -37,7 +37,9 @@ RULE = (
     'Attribute, Subscript/Slice, Lambda, IfExp, List/Set/Dict/generator '
     'comprehensions, NamedExpr (walrus), f-strings, Starred, Await, Yield, '
     'List, Tuple, Set, Dict nodes, with a bias towards and/or/BinOp shells '
-    'around deeper nodes; rendered with ast.unparse (optionally padded with '
+    'around deeper nodes (for the two module-level evaluators 1 case in 4 '
+    'uses only node kinds that evaluator whitelists and 1 in 4 such a tree '
+    'with exactly one foreign node spliced in at a drawn leaf); rendered with ast.unparse (optionally padded with '
     'whitespace/newlines); 1 case in 8 is instead a raw token soup that may '
     'not parse. Names are canary variables (succeeded, failed, x, RESULT), '
     'unsupplied names, builtin names (len, open, __import__, eval, print, '
@@ -192,66 +194,164 @@ def canon(v, depth=0):
 
 # -- AST generation (JSON trees) ----------------------------------------------
 
-def _names():
-    return st.one_of(
-        st.sampled_from(CANARIES), st.sampled_from(CANARIES),
-        st.sampled_from(UNSUPPLIED))
+NM = ['x', 'y', 'k', 'succeeded']
+ATTRS = ['available', '__class__', 'real', 'b', '_n']
+OTHER_KINDS = ['UnaryOp', 'Compare', 'Call', 'Attr', 'Sub', 'Slice', 'Lambda',
+               'IfExp', 'Comp', 'Walrus', 'FStr', 'Seq', 'Dict', 'Await',
+               'Yield']
 
 
-def _leaf():
-    return st.one_of(
-        _names().map(lambda n: ['Name', n]),
-        _names().map(lambda n: ['Name', n]),
-        st.sampled_from([0, 1, 2, 'a', '', True, None]).map(
-            lambda v: ['Const', v]),
-    )
+def draw_pure(draw, depth, target):
+    """Trees using only node kinds the target whitelists."""
+    if depth <= 0 or draw(st.integers(0, 3)) == 0:
+        if target == 'ranking' and draw(st.integers(0, 2)) == 0:
+            return ['Const', draw(st.sampled_from([0, 1, 2, 'a', True]))]
+        return ['Name', draw(st.sampled_from(CANARIES * 3 + UNSUPPLIED))]
+
+    def ch():
+        return draw_pure(draw, depth - 1, target)
+
+    if target != 'ranking':
+        return ['BoolOp', draw(st.sampled_from(['And', 'Or'])),
+                [ch() for _ in range(draw(st.integers(2, 3)))]]
+    k = draw(st.sampled_from(['BinOp', 'BinOp', 'UnaryOp', 'Compare', 'Attr',
+                              'Sub', 'Seq']))
+    if k == 'BinOp':
+        return [k, draw(st.sampled_from(BINOPS)), ch(), ch()]
+    if k == 'UnaryOp':
+        return [k, draw(st.sampled_from(UNOPS)), ch()]
+    if k == 'Compare':
+        return [k, ch(), [draw(st.sampled_from(CMPOPS))], [ch()]]
+    if k == 'Attr':
+        return [k, ch(), draw(st.sampled_from(ATTRS))]
+    if k == 'Sub':
+        return [k, ch(), ch()]
+    return [k, draw(st.sampled_from(['List', 'Tuple'])),
+            [ch() for _ in range(draw(st.integers(0, 2)))], False]
 
 
-def _extend(ch):
-    nm = st.sampled_from(['x', 'y', 'k', 'succeeded'])
-    attr = st.sampled_from(['available', '__class__', 'real', 'b', '_n'])
-    shells = [
-        st.tuples(st.sampled_from(['And', 'Or']),
-                  st.lists(ch, min_size=2, max_size=3)).map(
-            lambda t: ['BoolOp', t[0], t[1]]),
-        st.tuples(st.sampled_from(BINOPS), ch, ch).map(
-            lambda t: ['BinOp', t[0], t[1], t[2]]),
-    ]
-    others = [
-        st.tuples(st.sampled_from(UNOPS), ch).map(
-            lambda t: ['UnaryOp', t[0], t[1]]),
-        st.tuples(ch, st.lists(st.tuples(st.sampled_from(CMPOPS), ch),
-                               min_size=1, max_size=2)).map(
-            lambda t: ['Compare', t[0], [o for o, _ in t[1]],
-                       [c for _, c in t[1]]]),
-        st.tuples(ch, st.lists(ch, max_size=2),
-                  st.lists(st.tuples(nm, ch), max_size=1)).map(
-            lambda t: ['Call', t[0], t[1], [list(k) for k in t[2]]]),
-        st.tuples(ch, attr).map(lambda t: ['Attr', t[0], t[1]]),
-        st.tuples(ch, ch).map(lambda t: ['Sub', t[0], t[1]]),
-        st.tuples(ch, ch, ch).map(lambda t: ['Slice', t[0], t[1], t[2]]),
-        st.tuples(nm, ch).map(lambda t: ['Lambda', t[0], t[1]]),
-        st.tuples(ch, ch, ch).map(lambda t: ['IfExp', t[0], t[1], t[2]]),
-        st.tuples(st.sampled_from(['List', 'Set', 'Gen', 'Dict']), ch, nm, ch,
-                  st.lists(ch, max_size=1)).map(
-            lambda t: ['Comp', t[0], t[1], t[2], t[3], t[4]]),
-        st.tuples(nm, ch).map(lambda t: ['Walrus', t[0], t[1]]),
-        st.lists(st.one_of(st.sampled_from(['s', ' ', '{{']), ch),
-                 min_size=1, max_size=3).map(lambda p: ['FStr', p]),
-        st.tuples(st.sampled_from(['List', 'Tuple', 'Set']),
-                  st.lists(ch, max_size=3), st.booleans()).map(
-            lambda t: ['Seq', t[0], t[1], t[2]]),
-        st.lists(st.tuples(ch, ch), max_size=2).map(
-            lambda kv: ['Dict', [list(p) for p in kv]]),
-        ch.map(lambda c: ['Await', c]),
-        ch.map(lambda c: ['Yield', c]),
-    ]
-    return st.one_of(*shells, *shells, *shells, st.one_of(*others),
-                     st.one_of(*others))
+def draw_one_foreign(draw, depth, target):
+    """A whitelisted-only tree with exactly one foreign node spliced in."""
+    tree = draw_pure(draw, depth, target)
+
+    def leaf():
+        return ['Name', draw(st.sampled_from(CANARIES))]
+
+    k = draw(st.sampled_from(
+        ['Call', 'Call', 'Call0', 'Attr', 'Sub', 'Lambda', 'IfExp', 'Walrus',
+         'UnaryOp', 'Compare', 'Const', 'Await', 'Comp', 'FStr', 'Seq']))
+    if k == 'Call':
+        foreign = ['Call', leaf(), [leaf()], []]
+    elif k == 'Call0':
+        foreign = ['Call', leaf(), [], []]
+    elif k == 'Attr':
+        foreign = ['Attr', leaf(), draw(st.sampled_from(ATTRS))]
+    elif k == 'Sub':
+        foreign = ['Sub', leaf(), leaf()]
+    elif k == 'Lambda':
+        foreign = ['Lambda', 'k', leaf()]
+    elif k == 'IfExp':
+        foreign = ['IfExp', leaf(), leaf(), leaf()]
+    elif k == 'Walrus':
+        foreign = ['Walrus', 'k', leaf()]
+    elif k == 'UnaryOp':
+        foreign = ['UnaryOp', draw(st.sampled_from(UNOPS)), leaf()]
+    elif k == 'Compare':
+        foreign = ['Compare', leaf(), [draw(st.sampled_from(CMPOPS))],
+                   [leaf()]]
+    elif k == 'Const':
+        foreign = ['Const', draw(st.sampled_from([0, 1, 'a', True, None]))]
+    elif k == 'Await':
+        foreign = ['Await', leaf()]
+    elif k == 'Comp':
+        foreign = ['Comp', 'List', leaf(), 'k', leaf(), []]
+    elif k == 'FStr':
+        foreign = ['FStr', [leaf()]]
+    else:
+        foreign = ['Seq', draw(st.sampled_from(['List', 'Tuple', 'Set'])),
+                   [leaf()], False]
+
+    # replace one drawn leaf (Name/Const position) by the foreign node
+    def paths(t, here):
+        if t[0] in ('Name', 'Const'):
+            yield here
+            return
+        for i, c in enumerate(t):
+            if isinstance(c, list) and c and isinstance(c[0], str) \
+                    and c[0][:1].isupper() and i > 0:
+                yield from paths(c, here + [i])
+            elif isinstance(c, list):
+                for j, cc in enumerate(c):
+                    if (isinstance(cc, list) and cc
+                            and isinstance(cc[0], str)
+                            and cc[0][:1].isupper()):
+                        yield from paths(cc, here + [i, j])
+    ps = list(paths(tree, []))
+    if not ps:
+        return foreign
+    path = draw(st.sampled_from(ps))
+    if not path:
+        return foreign
+    node = tree
+    for i in path[:-1]:
+        node = node[i]
+    node[path[-1]] = foreign
+    return tree
 
 
-def exprs():
-    return st.recursive(_leaf(), _extend, max_leaves=8)
+def draw_tree(draw, depth, root=False):
+    """Explicit recursive draw: and/or/BinOp shells around other nodes."""
+    r = draw(st.integers(0, 99))
+    if depth <= 0 or (not root and r < 22):
+        if draw(st.integers(0, 4)) == 0:
+            return ['Const', draw(st.sampled_from(
+                [0, 1, 2, 'a', '', True, None]))]
+        pool = CANARIES * 3 + UNSUPPLIED
+        return ['Name', draw(st.sampled_from(pool))]
+
+    def ch():
+        return draw_tree(draw, depth - 1)
+
+    if r < 70 or (root and r < 85):
+        if draw(st.booleans()):
+            n = draw(st.integers(2, 3))
+            return ['BoolOp', draw(st.sampled_from(['And', 'Or'])),
+                    [ch() for _ in range(n)]]
+        return ['BinOp', draw(st.sampled_from(BINOPS)), ch(), ch()]
+    k = draw(st.sampled_from(OTHER_KINDS))
+    if k == 'UnaryOp':
+        return [k, draw(st.sampled_from(UNOPS)), ch()]
+    if k == 'Compare':
+        n = draw(st.integers(1, 2))
+        return [k, ch(), [draw(st.sampled_from(CMPOPS)) for _ in range(n)],
+                [ch() for _ in range(n)]]
+    if k == 'Call':
+        return [k, ch(), [ch() for _ in range(draw(st.integers(0, 2)))],
+                [[draw(st.sampled_from(NM)), ch()]
+                 for _ in range(draw(st.integers(0, 1)))]]
+    if k == 'Attr':
+        return [k, ch(), draw(st.sampled_from(ATTRS))]
+    if k == 'Sub':
+        return [k, ch(), ch()]
+    if k in ('Slice', 'IfExp'):
+        return [k, ch(), ch(), ch()]
+    if k in ('Lambda', 'Walrus'):
+        return [k, draw(st.sampled_from(NM)), ch()]
+    if k == 'Comp':
+        return [k, draw(st.sampled_from(['List', 'Set', 'Gen', 'Dict'])),
+                ch(), draw(st.sampled_from(NM)), ch(),
+                [ch() for _ in range(draw(st.integers(0, 1)))]]
+    if k == 'FStr':
+        return [k, [draw(st.sampled_from(['s', ' ', '{{']))
+                    if draw(st.booleans()) else ch()
+                    for _ in range(draw(st.integers(1, 3)))]]
+    if k == 'Seq':
+        return [k, draw(st.sampled_from(['List', 'Tuple', 'Set'])),
+                [ch() for _ in range(draw(st.integers(0, 3)))],
+                draw(st.integers(0, 4)) == 0]
+    if k == 'Dict':
+        return [k, [[ch(), ch()] for _ in range(draw(st.integers(0, 2)))]]
+    return [k, ch()]    # Await, Yield
 
 
 TOKENS = ['succeeded', 'failed', 'x', 'RESULT', 'len', 'and', 'or', 'not',
@@ -276,7 +376,14 @@ def cases(draw):
         case['text'] = ' '.join(draw(st.lists(
             st.sampled_from(TOKENS), min_size=1, max_size=9)))
     else:
-        case['tree'] = draw(exprs())
+        r = draw(st.integers(0, 7))
+        if target != 'fresh' and r < 2:
+            case['tree'] = draw_pure(draw, draw(st.integers(1, 4)), target)
+        elif target != 'fresh' and r < 4:
+            case['tree'] = draw_one_foreign(
+                draw, draw(st.integers(1, 3)), target)
+        else:
+            case['tree'] = draw_tree(draw, draw(st.integers(1, 4)), root=True)
         case['pad'] = draw(st.sampled_from(['', '', ' ', '\n', '  \t']))
     return case
 
@@ -512,3 +619,134 @@ def check_case(case, ctx: Ctx) -> CaseResult:
 
 def run_shard(ctx: Ctx):
     hyp_run(ctx, cases(), check_case, ctx.share(BUDGET[ctx.tier]))
+
+
+# -- Atheris (thorough tier only): byte-level second driver, same oracle ------
+
+ATHERIS_RUNS = 480000      # total over all shards
+_SEED_TEXTS = [
+    'succeeded', 'succeeded and x', '(succeeded and x) or failed',
+    'succeeded or (failed and x)', '1 + 1', '1 * -1', '1 < RESULT',
+    '1 in (1, 2, 3)', '[1,2,3][-1] + 2', 'RESULT.available > 0',
+    'open("foo")', 'import sys', 'answer', 'x.b.c', 'my_function()',
+    '__import__("os")', 'x - 1', '(y := succeeded)', 'lambda: x',
+    '[x for x in RESULT]', 'f"{x}"', 'x if failed else succeeded',
+    'succeeded and not failed',
+]
+
+
+def case_from_bytes(data: bytes):
+    """Decode fuzzer bytes into a JSON case (same shape as Hypothesis's)."""
+    if len(data) < 6:
+        return None
+    target = ['completion', 'ranking', 'fresh'][data[0] % 3]
+    case = {'target': target,
+            'truth': [bool(data[1] >> i & 1) for i in range(4)]}
+    if target == 'fresh':
+        mask = int.from_bytes(data[2:6], 'little')
+        case['wl'] = sorted(n for i, n in enumerate(FRESH_POOL)
+                            if mask >> i & 1)
+        case['err'] = ['default', 'custom', 'ctx'][(data[1] >> 4) % 3]
+    text = data[6:].decode('utf-8', 'ignore')
+    # not this property: arithmetic that is merely expensive to evaluate
+    import re
+    if '**' in text or '<<' in text or re.search(r'\d{3}', text):
+        return None
+    case['text'] = text
+    return case
+
+
+def _atheris_child(argv):
+    import json
+    import sys
+    import atheris
+    out, runs, seed, workdir = argv[0], int(argv[1]), int(argv[2]), argv[3]
+    with atheris.instrument_imports(include=['cylc.flow'], enable_loader_override=False):
+        import cylc.flow.util  # noqa
+        import cylc.flow.task_outputs  # noqa
+        import cylc.flow.host_select  # noqa
+    import os
+    corpus = os.path.join(workdir, 'corpus')
+    os.makedirs(corpus, exist_ok=True)
+    for i, txt in enumerate(_SEED_TEXTS):
+        for t in range(3):
+            with open(os.path.join(corpus, f's{i}_{t}'), 'wb') as f:
+                f.write(bytes([t, 0x0f, 0xff, 0xff, 0x3f, 0x00])
+                        + txt.encode())
+    stats = {'runs': 0, 'decoded': 0}
+
+    import warnings
+    warnings.simplefilter('ignore')
+
+    def one(data):
+        stats['runs'] += 1
+        if stats['runs'] % 2000 == 0 or stats['runs'] >= runs - 1:
+            # (libFuzzer leaves through _exit: no atexit)
+            with open(out + '.stats', 'w') as f:
+                f.write(json.dumps(stats))
+        case = case_from_bytes(data)
+        if case is None:
+            return
+        stats['decoded'] += 1
+        res = check_case(case, None)
+        if res.violations:
+            with open(out, 'a') as f:
+                f.write(json.dumps(case) + '\n')
+            raise RuntimeError(res.violations[0].sig)
+
+    atheris.Setup(
+        [sys.argv[0], f'-runs={runs}', f'-seed={seed}', '-max_len=120',
+         '-timeout=20', f'-artifact_prefix={workdir}/', '-verbosity=0',
+         corpus], one)
+    atheris.Fuzz()
+
+
+def run_atheris(ctx: Ctx):
+    import json
+    import os
+    import subprocess
+    import sys
+    work = os.path.join(ctx.scratch, 'atheris')
+    os.makedirs(work, exist_ok=True)
+    out = os.path.join(work, 'found.jsonl')
+    runs = ctx.share(ATHERIS_RUNS)
+    ex = ctx.col.extra
+    try:
+        proc = subprocess.run(
+            [sys.executable, '-m', 'vf.props.c24', '--atheris', out,
+             str(runs), str(ctx.derived_seed), work],
+            stdout=subprocess.PIPE, stderr=subprocess.STDOUT, timeout=600,
+            cwd=work)
+        ex['atheris_exit_codes'] = {str(proc.returncode): 1}
+    except subprocess.TimeoutExpired:
+        ex['atheris_timeouts'] = 1
+    try:
+        with open(out + '.stats') as f:
+            stats = json.load(f)
+        ex['atheris_runs'] = stats['runs']
+        ex['atheris_cases_checked'] = stats['decoded']
+    except (OSError, ValueError):
+        ex['atheris_no_stats'] = 1
+    if os.path.exists(out):
+        # every fuzzer finding is re-checked through the plain replay path
+        with open(out) as f:
+            for line in f:
+                case = json.loads(line)
+                res = check_case(case, ctx)
+                ctx.col.record(case, res)
+                for v in ctx.col.filter_known(res.violations):
+                    ctx.col.add_violation(v, case)
+
+
+def _run_shard_full(ctx: Ctx):
+    hyp_run(ctx, cases(), check_case, ctx.share(BUDGET[ctx.tier]))
+    if ctx.tier == 'thorough':
+        run_atheris(ctx)
+
+
+run_shard = _run_shard_full
+
+if __name__ == '__main__':
+    import sys as _sys
+    if len(_sys.argv) > 1 and _sys.argv[1] == '--atheris':
+        _atheris_child(_sys.argv[2:])
